@@ -481,6 +481,43 @@ func c12OutcomeVerified(w *World, fi *FnInfo, at ssa.Instruction, O ssa.Value, d
 			return true, ""
 		}
 	}
+	// the function itself stores a verified content into O before (the integrity step): store of EnvelopeContent then integrity gate
+	for l := range g {
+		if strings.HasPrefix(l, "EQ(call:ngo/verifier.") && strings.HasSuffix(l, "#1.Error,nil)") {
+			return true, ""
+		}
+	}
+	// the same, read off the instructions: O.EnvelopeContent = c#0 for a module call c that was handed O, and the use is
+	// reachable only through `c#1.Error == nil` (the integrity result of that very call)
+	for _, b := range fi.Fn.Blocks {
+		for _, in := range b.Instrs {
+			st, ok := in.(*ssa.Store)
+			if !ok {
+				continue
+			}
+			fa, ok := st.Addr.(*ssa.FieldAddr)
+			if !ok || fa.X != O || fieldName(O.Type(), fa.Field) != "EnvelopeContent" {
+				continue
+			}
+			ex, ok := st.Val.(*ssa.Extract)
+			if !ok {
+				continue
+			}
+			call, ok := ex.Tuple.(*ssa.Call)
+			if !ok || staticCallee(call) == nil || !w.IsProductFn(staticCallee(call)) || !b.Dominates(at.Block()) {
+				continue
+			}
+			for _, r := range *call.Referrers() {
+				res, ok := r.(*ssa.Extract)
+				if !ok || res.Index == ex.Index || errFieldOf(res.Type()) < 0 {
+					continue
+				}
+				if labelHas(g, "EQ("+desc(res)+".Error,nil)") {
+					return true, ""
+				}
+			}
+		}
+	}
 	// O is a parameter of an unexported function: all call sites must satisfy the condition
 	if p, ok := O.(*ssa.Parameter); ok && depth < 4 && !fi.Fn.Object().Exported() {
 		idx := -1
@@ -503,12 +540,6 @@ func c12OutcomeVerified(w *World, fi *FnInfo, at ssa.Instruction, O ssa.Value, d
 			}
 		}
 		if nSites > 0 {
-			return true, ""
-		}
-	}
-	// the function itself stores a verified content into O before (the integrity step): store of EnvelopeContent then integrity gate
-	for l := range g {
-		if strings.HasPrefix(l, "EQ(call:ngo/verifier.") && strings.HasSuffix(l, "#1.Error,nil)") {
 			return true, ""
 		}
 	}
@@ -780,7 +811,12 @@ func c12Consistency(c *Ctx) {
 			key := fmt.Sprintf("consistency/%s/exit#%d", fnName(fn), k)
 			rule := "outcome/error consistency: once the outcome exists an exit returns (outcome, nil) only on paths no store to outcome.Error reaches, and otherwise (outcome, the error just stored) or (outcome, outcome.Error)"
 			if r.Results[0] != ssa.Value(O) {
-				c.Bad(key, rule, w.InstrPos(r), "an exit after policy selection returns "+desc(r.Results[0])+" instead of the outcome")
+				// the tail of the method moved into a helper that is handed the outcome: `return helper(…, outcome, …)`
+				if ok, why := c12TailConsistent(w, r, O, 0); ok {
+					c.OK(key, rule+" (through a helper that returns the outcome it was handed with that outcome's error)", w.InstrPos(r))
+				} else {
+					c.Bad(key, rule, w.InstrPos(r), "an exit after policy selection returns "+desc(r.Results[0])+" instead of the outcome"+why)
+				}
 				continue
 			}
 			e := r.Results[1]
@@ -805,7 +841,8 @@ func c12Consistency(c *Ctx) {
 						}
 					}
 				}
-				c.Check(okSt && fi.nonNil(e, b), key, rule, w.InstrPos(r), "a failure is returned without being recorded in outcome.Error (or a possibly nil error is returned as failure)")
+				// the value returned is the value just stored into outcome.Error (nil or not: the two always agree)
+				c.Check(okSt, key, rule, w.InstrPos(r), "a failure is returned without being recorded in outcome.Error")
 			}
 		}
 		if k < 3 {
@@ -1019,4 +1056,83 @@ func c12PoolGet(w *World, fn *ssa.Function, ta *ssa.TypeAssert) bool {
 		}
 	}
 	return true
+}
+
+// c12TailConsistent: `return g(…, O, …)` where every exit of the module function g returns the object it was handed in
+// that position together with that object's Error field (or nil when it never stored into it).
+func c12TailConsistent(w *World, r *ssa.Return, O ssa.Value, depth int) (bool, string) {
+	if depth > 3 || len(r.Results) != 2 {
+		return false, ""
+	}
+	e0, ok0 := r.Results[0].(*ssa.Extract)
+	e1, ok1 := r.Results[1].(*ssa.Extract)
+	if !ok0 || !ok1 || e0.Tuple != e1.Tuple || e0.Index != 0 || e1.Index != 1 {
+		return false, ""
+	}
+	call, ok := e0.Tuple.(*ssa.Call)
+	if !ok {
+		return false, ""
+	}
+	g := staticCallee(call)
+	if g == nil || g.Blocks == nil || !w.IsProductFn(g) {
+		return false, ""
+	}
+	idx := -1
+	for i, a := range call.Call.Args {
+		if unwrap(a) == O {
+			idx = i
+		}
+	}
+	if idx < 0 || idx >= len(g.Params) {
+		return false, " (the helper is not handed the outcome)"
+	}
+	P := g.Params[idx]
+	gi := w.Info(g)
+	for _, b := range g.Blocks {
+		gr, ok := blockTerm(b).(*ssa.Return)
+		if !ok {
+			continue
+		}
+		if len(gr.Results) != 2 {
+			return false, ""
+		}
+		if gr.Results[0] != ssa.Value(P) {
+			if ok, _ := c12TailConsistent(w, gr, P, depth+1); ok {
+				continue
+			}
+			return false, " (the helper " + fnName(g) + " returns " + desc(gr.Results[0]) + ")"
+		}
+		e := gr.Results[1]
+		switch {
+		case isNilConst(e):
+			for _, sb := range g.Blocks {
+				for _, in := range sb.Instrs {
+					if st, ok := in.(*ssa.Store); ok {
+						if fa, ok := st.Addr.(*ssa.FieldAddr); ok && fa.X == ssa.Value(P) && fieldName(P.Type(), fa.Field) == "Error" {
+							if sb == b || gi.reachHit([]state{{sb.Index, 0, -1}}, nil, map[int]bool{b.Index: true}) {
+								return false, " (the helper returns nil after storing an error)"
+							}
+						}
+					}
+				}
+			}
+			// nil although the caller may already have recorded a failure: only acceptable if the helper reports the cell
+			return false, " (the helper returns a nil error regardless of the error already recorded in the outcome)"
+		case gi.cellOfLoad(e) >= 0 && gi.cells[gi.cellOfLoad(e)].base == ssa.Value(P):
+			// (outcome, outcome.Error)
+		default:
+			okSt := false
+			for _, in := range b.Instrs {
+				if st, ok := in.(*ssa.Store); ok {
+					if fa, ok := st.Addr.(*ssa.FieldAddr); ok && fa.X == ssa.Value(P) && fieldName(P.Type(), fa.Field) == "Error" && st.Val == e {
+						okSt = true
+					}
+				}
+			}
+			if !okSt || !gi.nonNil(e, b) {
+				return false, " (the helper returns an error it did not record)"
+			}
+		}
+	}
+	return true, ""
 }
